@@ -29,6 +29,11 @@ comparison callback is a consistent ordering.  Decided:
                as an exact rational identity, accumulators classified from their own update statements - the density is unchanged
                (degree 0) and the solution mass and volume double (degree 1).  A term that loses its division by the water mass
                makes the density depend on how much solution there is.
+  C15.gfw      "expressing concentrations in different supported units": when a mass-based concentration carries neither `as` nor
+               `gfw`, convert_units takes the formula weight of the master species the concentration was entered for; the
+               look-up feeding `Set_gfw(master_ptr->gfw)` is the exact-entry search (master_bsearch), not the search that
+               returns the element's primary master (master_bsearch_primary), whose weight differs for valence states such as
+               S(-2) or C(-4)
 Not decided: unit conversion, density iteration, extensive/intensive scaling, mixing order, repeated definitions (all need the
 numerical result of two runs).
 """
@@ -367,7 +372,31 @@ def addmul_rule(P, R):
             R.anchor_missing("C15.addmul", "exemption row %s no longer matches a deviation" % k)
 
 
+def gfw_rule(P, R):
+    R.rule("C15.gfw", "convert_units takes the default formula weight from the exact master entry of the description", minimum=1)
+    f = P.one("Phreeqc::convert_units")
+    n = 0
+    for blk in T.walk(f["body"]):
+        if blk[0] != "Compound":
+            continue
+        stm = [s_ for s_ in blk[2] if T.is_node(s_)]
+        look = [s_ for s_ in stm if s_[0] == "Bin" and s_[2] == "=" and T.text(s_[3]) == "master_ptr" and T.strip_casts(s_[4])[0] == "Call"]
+        uses = [s_ for s_ in stm if any(T.callee_name(c) == "Set_gfw" and any(y[0] == "Member" and y[2] == "master::gfw" for y in T.walk(c)) for c in T.calls(s_))]
+        if look and uses:
+            n += 1
+            cal = T.callee_name(T.strip_casts(look[-1][4]))
+            inst = "convert_units@%d" % look[-1][1]
+            if cal == "master_bsearch":
+                R.ok("C15.gfw", inst, "master_bsearch(description)")
+            else:
+                R.violation("C15.gfw", inst, "the default formula weight is taken from %s(): for a concentration entered for a valence state (S(-2), C(-4)) this is the weight of the "
+                            "element's primary species, so mg/kgw and mmol/kgw descriptions of the same water disagree" % cal, file=f["file"], line=look[-1][1], function=f["q"])
+    if n == 0:
+        R.anchor_missing("C15.gfw", "convert_units: the default formula-weight look-up was not found")
+
+
 def run(P, R, tier):
+    gfw_rule(P, R)
     addsol_rule(P, R)
     addmul_rule(P, R)
     scale_rule(P, R)
